@@ -1,6 +1,6 @@
 (* PEL commands of the extracted binary: generators (spec side) and the decode model. *)
 From Coq Require Import List NArith ZArith Bool Arith.
-From PV Require Import Base.Bytes Base.Lit Base.Json Base.Utf8 Base.PelTypes Model.Hexdump Model.Parse Model.Render Model.Pel Model.Env Model.Pretty
+From PV Require Import Base.Bytes Base.Lit Base.Json Base.Utf8 Base.PelTypes Model.Hexdump Model.Parse Model.Render Model.Pel Model.Env Model.Pretty Model.Select
                        Spec.Encode Spec.DocOf Spec.Choice Spec.PublishedTables.
 Import ListNotations.
 Open Scope N_scope.
@@ -46,6 +46,19 @@ Fixpoint offsets (start : N) (l : list section_t) : list N :=
 
 Definition cfg_of (b : bytes) : config := {| allow_plugins := N.testbit (be_val b 0) 0 |}.
 
+Definition sel_of (b : bytes) (sv : bytes) : sel_config :=
+  let v := be_val b 0 in
+  {| every := N.testbit v 0; term := N.testbit v 1; svc := N.testbit v 2; nsvc := N.testbit v 3; hid := N.testbit v 4;
+     only := N.testbit v 5; sevs := sv; lookup := N.testbit v 6 |}.
+
+Definition uh_of (sev flags : N) : uh_t :=
+  {| uh_hdr := {| h_ver := 1; h_sub := 0; h_comp := 0 |}; uh_len := 24; uh_subsys := 0; uh_scope := 0; uh_sev := sev; uh_etype := 0;
+     uh_res4 := 0; uh_domain := 0; uh_vector := 0; uh_flags := flags; uh_states := 0 |}.
+
+(* all 256 severities x the 8 combinations of the three class bits (other flag bits = noise): '0'/'1' per cell *)
+Definition consider_table (c : sel_config) (noise : N) : text :=
+  flat_map (fun sev => map (fun k => if consider c (uh_of (N.of_nat sev) (N.lor (N.of_nat k * 8192) noise)) then 49 else 48) (seq 0 8)) (seq 0 256).
+
 Definition run_pel (cmd : text) (args : list bytes) : option text :=
   if is_cmd cmd (L "gen_pel") then
     let p := build_pel (be_val (arg 0 args) 0) (be_val (arg 1 args) 0) (choices (arg 3 args)) in
@@ -57,6 +70,8 @@ Definition run_pel (cmd : text) (args : list bytes) : option text :=
       (L "offsets", JArr (map (fun o => JNum (Z.of_N o)) (offsets 72 (p_secs p))));
       (L "ids", JArr (map (fun s => JNum (Z.of_N (sec_id s))) (p_secs p)));
       (L "model", render_outcome (decode env0 c (fun _ => true) data))]))
+  else if is_cmd cmd (L "consider_table") then
+    Some ([34] ++ consider_table (sel_of (arg 0 args) (arg 1 args)) (be_val (arg 2 args) 0) ++ [34])
   else if is_cmd cmd (L "pretty") then
     match utf8_decode (arg 1 args) with
     | Some t => Some (render (JStr (pretty_print (nat_arg (arg 0 args)) t)))
